@@ -69,6 +69,62 @@ theorem restore_first_reset (s0 : State) (a : Nat) (ops : List Op) (b : Nat) (or
     rw [hk.1] at this; cases this
   · exact hcur
 
+/-! ## restore, per mocker: "in that builder" when several builders mock the same variable -/
+
+/-- **Clause "… the value it had before its first mock *in that builder*", when other builders (or other mockers)
+    mock the same variable too.**  No discipline and no invariant: once mocker `i` holds a mock with saved value `x`
+    (by `first_set_saves_current`, the content at its first successful Set), any history of lookups, Set/Apply/Cancel
+    through ANY mockers — other builders' mockers of the same variable included —, direct assignments and `Pkg` calls
+    that does not cancel `i` leaves `i` holding `x`, and `Cancel` through `i` then writes exactly `x` back.
+    **Partial**: histories containing `Reset` of other builders are not covered (the full statement needs the cache
+    well-formedness `Inv.cacheOK` to hold without the one-mocker discipline; with the discipline it is
+    `restore_first_reset`). -/
+theorem restore_own_first_partial (s : State) (i a : Nat) (x : Boxed) (ops : List Op)
+    (h : Holds s i a x) (hk : ∀ op, op ∈ ops → KeepsMock i op) :
+    Holds (run false s ops) i a x ∧
+    ((step false (run false s ops) (.cancel i)).2 = .ok →
+      ((step false (run false s ops) (.cancel i)).1.mem a).cur = x) := by
+  have hrun : ∀ (l : List Op) (t : State), Holds t i a x → (∀ op, op ∈ l → KeepsMock i op) → Holds (run false t l) i a x := by
+    intro l
+    induction l with
+    | nil => intro t ht _; exact ht
+    | cons op rest ih =>
+      intro t ht hl
+      exact ih _ (step_holds t op i a x ht (hl op (List.mem_cons_self ..))) (fun o ho => hl o (List.mem_cons_of_mem _ ho))
+  have hH := hrun ops s h hk
+  refine ⟨hH, ?_⟩
+  generalize run false s ops = s1 at hH
+  obtain ⟨_, h2, h3, h4⟩ := hH
+  simp only [step, cancel, Bool.false_eq_true, if_false, h2, if_true]
+  cases ht : (s1.mks i).target with
+  | none => intro hh; cases hh
+  | some t =>
+    simp only
+    by_cases hty : t = (s1.mem (s1.mks i).addr).ty
+    · simp [hty, rset, h3, h4]
+    · simp [hty]
+
+/-- the value a mocker saves at its first successful Set is the variable's content at that moment -/
+theorem first_set_saves_current (s : State) (i : Nat) (v : Boxed) (hi : i < s.n) (hm : (s.mks i).mocked = false)
+    (hok : (step false s (.set i v)).2 = .ok) :
+    Holds (step false s (.set i v)).1 i (s.mks i).addr (s.mem (s.mks i).addr).cur := by
+  simp only [step, setOp_eq] at hok ⊢
+  have key : ∀ (t : State), t.mem = s.mem → t.n = s.n → (t.mks i).addr = (s.mks i).addr → (t.mks i).mocked = false →
+      (doSet false t i v).2 = .ok → Holds (doSet false t i v).1 i (s.mks i).addr (s.mem (s.mks i).addr).cur := by
+    intro t hmem hn haddr hmk hok
+    rcases doSet_cases t i v with ⟨_, hne⟩ | ⟨p, hp, _⟩ | ⟨c, _, _, _, hs⟩
+    · exact absurd hok hne
+    · rw [hp] at hok; cases hok
+    · rw [hs]; simp only [Holds, upd_same, hmk, Bool.false_eq_true, if_false, hn, haddr, hmem]
+      exact ⟨hi, trivial, trivial, trivial⟩
+  cases hu : (s.mks i).ue with
+  | false => simp only [hu, Bool.false_eq_true, if_false] at hok ⊢; exact key s rfl rfl rfl hm hok
+  | true =>
+    simp only [hu, if_true] at hok ⊢
+    cases v with
+    | none => simp at hok
+    | some y => exact key (retarget s i y.ty) rfl rfl (by simp [retarget]) (by simp [retarget, hm]) hok
+
 /-! ## Cancel / Reset without a mock: no panic, nothing touched, idempotent -/
 
 /-- **Clause "cancelling a variable mock that was never set leaves the variable untouched"** (and does not panic):
@@ -278,19 +334,20 @@ theorem reset_touches_only_own (s : State) (hI : Inv s) (b : Nat) (ord : List (B
     (step false s (.reset b ord)).1.mem a = s.mem a :=
   (resetGo_spec b ord hI _ rfl).2.2.2.2.2.2.2 a h
 
-/-- **Re-lookup through the builder cache.**  While a mocker holds a mock, `b.Var(&v)` / `b.UnExportedVar(name)`
-    return that very mocker (so a further `Set` keeps the saved origin) and change nothing but the builder's package
-    override, which they reset. -/
-theorem relookup_returns_same_mocker (s : State) (hI : Inv s) (i : Nat) (hm : (s.mks i).mocked = true) :
+/-- **Re-lookup through the builder cache.**  `b.Var(&v)` / `b.UnExportedVar(name)` return the one mocker the builder
+    ever created for that variable — whether it currently holds a mock, was cancelled, or was never set (fix F27) — and
+    change nothing but the builder's package override, which they reset.  So a further `Set` keeps the saved origin, and
+    no handle the caller kept is ever superseded. -/
+theorem relookup_returns_same_mocker (s : State) (hI : Inv s) (i : Nat) (hi : i < s.n) :
     step false s (.look (s.mks i).b (s.mks i).ue (s.mks i).addr) =
       ({ s with ret := i, pkg := upd s.pkg (s.mks i).b 0 }, .ok) := by
-  simp [step, look, hI.cur i hm, hI.act i hm]
+  simp [step, look, hI.allCached i hi]
 
 /-- **The cache key does not depend on `Builder.pkgName`.**  Whatever package overrides are pending — any sequence of
-    `Pkg(p)` calls on any builders, in particular `b.Pkg(p).UnExportedVar(name)` — the lookup of a variable that holds a
-    mock returns the mocker that holds it: no second mocker (whose saved origin would be the mock value) is created,
-    no variable and no mocker changes. -/
-theorem relookup_under_pkg_override (s : State) (hI : Inv s) (i : Nat) (hm : (s.mks i).mocked = true)
+    `Pkg(p)` calls on any builders, in particular `b.Pkg(p).UnExportedVar(name)` — the lookup returns the variable's one
+    mocker: no second mocker (whose saved origin would be the mock value) is created, no variable and no mocker
+    changes. -/
+theorem relookup_under_pkg_override (s : State) (hI : Inv s) (i : Nat) (hi : i < s.n)
     (pkgs : List (Nat × Nat)) :
     let s1 := run false s (pkgs.map (fun q => Op.pkg q.1 q.2))
     let r := step false s1 (.look (s.mks i).b (s.mks i).ue (s.mks i).addr)
@@ -308,11 +365,64 @@ theorem relookup_under_pkg_override (s : State) (hI : Inv s) (i : Nat) (hm : (s.
     | cons q rest ih => intro t; exact ih _
   obtain ⟨e1, e2, e3, e4⟩ := h1 pkgs s
   have hc : s1.cache (s.mks i).b (s.mks i).ue (s.mks i).addr = some i := by
-    show (run false s _).cache _ _ _ = _; rw [e3]; exact hI.cur i hm
-  have hk : (s1.mks i).canceled = false := by
-    show ((run false s _).mks i).canceled = _; rw [e2]; exact hI.act i hm
-  simp only [r, step, look, hc, hk]
+    show (run false s _).cache _ _ _ = _; rw [e3]; exact hI.allCached i hi
+  simp only [r, step, look, hc]
   exact ⟨rfl, rfl, e1, e2, e3, e4, by simp⟩
+
+/-- **A mocker that was never set holds no mock** (so `cancel_without_set_noop` applies to it): the mocker a first
+    lookup creates is un-mocked and not cancelled. -/
+theorem first_lookup_unmocked (s : State) (b : Nat) (ue : Bool) (c : Nat) (h : s.cache b ue c = none) :
+    let s1 := (step false s (.look b ue c)).1
+    s1.ret = s.n ∧ (s1.mks s1.ret).mocked = false ∧ (s1.mks s1.ret).canceled = false ∧ (s1.mks s1.ret).addr = c ∧
+      s1.mem = s.mem := by
+  simp [step, look, h]
+
+/-! ## Set / Apply do succeed -/
+
+/-- **Clause "setting a mocked value … for any variable type": a well-typed `Set` succeeds.**  In every reachable state,
+    for every mocker the builder handed out: a value whose type is the variable's type, or (pointer-addressed
+    variables) merely assignable to it — identical, implementing the interface, or identical underlying type with one
+    side unnamed — is accepted; by `readers_see_last_set` the variable then holds it.  For `UnExportedVar` mockers the
+    value must have the variable's own type (K-C08-ue-iface: impossible for interface-typed variables). -/
+theorem set_succeeds (s : State) (hI : Inv s) (i : Nat) (hi : i < s.n) (x : Val)
+    (hx : x.ty = (s.mem (s.mks i).addr).ty ∨
+      ((s.mks i).ue = false ∧ assignable x.ty (s.mem (s.mks i).addr).ty = true)) :
+    (step false s (.set i (some x))).2 = .ok := by
+  have key : ∀ (t : State), t.mem = s.mem → (t.mks i).addr = (s.mks i).addr →
+      (t.mks i).target = some (s.mem (s.mks i).addr).ty →
+      (x.ty = (s.mem (s.mks i).addr).ty ∨ assignable x.ty (s.mem (s.mks i).addr).ty = true) →
+      (doSet false t i (some x)).2 = .ok := by
+    intro t hmem haddr htg hasg
+    simp only [doSet, htg, hmem, haddr, valueOf, rset]
+    simp only [ne_eq, not_true_eq_false, if_false]
+    rcases hasg with h | h
+    · simp [h]
+    · by_cases hty : x.ty = (s.mem (s.mks i).addr).ty
+      · simp [hty]
+      · simp [hty, h]
+  simp only [step, setOp_eq]
+  cases hu : (s.mks i).ue with
+  | false =>
+    simp only [Bool.false_eq_true, if_false]
+    refine key s rfl rfl (hI.ptrTyped i hi hu) ?_
+    rcases hx with h | ⟨_, h⟩
+    · exact Or.inl h
+    · exact Or.inr h
+  | true =>
+    simp only [if_true]
+    have hty : x.ty = (s.mem (s.mks i).addr).ty := by
+      rcases hx with h | ⟨h, _⟩
+      · exact h
+      · rw [hu] at h; cases h
+    exact key (retarget s i x.ty) rfl (by simp [retarget]) (by simp [retarget, hty]) (Or.inl hty)
+
+/-- … and so does `Apply` with a callback that returns such a value. -/
+theorem apply_succeeds (s : State) (hI : Inv s) (i : Nat) (hi : i < s.n) (x : Val)
+    (hx : x.ty = (s.mem (s.mks i).addr).ty ∨
+      ((s.mks i).ue = false ∧ assignable x.ty (s.mem (s.mks i).addr).ty = true)) :
+    (step false s (.apply i (.ret (some x)))).2 = .ok := by
+  have := set_succeeds s hI i hi x hx
+  simpa [step, applyOp, cbResult] using this
 
 /-- The invariant holds initially and is kept by every good history: the hypotheses `Inv` above are satisfiable by
     every state the API can reach. -/
@@ -368,5 +478,32 @@ example : ((step false (run false (init exMem) exOps) (.cancel 0)).1.mem 0).cur 
       · by_cases h1 : j = 1 <;> simp [h0, h1]
     · simp [run, exOps, step, look, setOp, doSet, init, upd, exMem, rset, valueOf,
         exInt, exErr, exPErr, assignable, implements, Ty.isIface, conv]
+
+/-- `set_succeeds` is not vacuous: in the reachable example state the error variable's mocker (pointer-addressed,
+    interface type) accepts a `*T` error (assignable, not identical), and the int variable's mocker an int. -/
+example : (step false (run false (init exMem) exOps) (.set 1 (some ⟨exPErr, 2⟩))).2 = .ok ∧
+    (step false (run false (init exMem) exOps) (.set 0 (some ⟨exInt, 5⟩))).2 = .ok := by
+  have hI := reachable_inv exMem 0 exOps (ex_good 0)
+  constructor
+  · refine set_succeeds _ hI 1 ?_ ⟨exPErr, 2⟩ (Or.inr ?_)
+    · simp [run, exOps, step, look, setOp, doSet, init, upd, exMem, rset, valueOf,
+        exInt, exErr, exPErr, assignable, implements, Ty.isIface, conv]
+    · simp [run, exOps, step, look, setOp, doSet, init, upd, exMem, rset, valueOf,
+        exInt, exErr, exPErr, assignable, implements, Ty.isIface, conv]
+  · refine set_succeeds _ hI 0 ?_ ⟨exInt, 5⟩ (Or.inl ?_)
+    · simp [run, exOps, step, look, setOp, doSet, init, upd, exMem, rset, valueOf,
+        exInt, exErr, exPErr, assignable, implements, Ty.isIface, conv]
+    · simp [run, exOps, step, look, setOp, doSet, init, upd, exMem, rset, valueOf,
+        exInt, exErr, exPErr, assignable, implements, Ty.isIface, conv]
+
+/-- `restore_own_first_partial` is not vacuous — two builders mock the same int variable (7): builder 0 sets 1, builder 1
+    sets 2 (its mocker saved 1); builder 0's Cancel gives 7 back, and builder 1's own Cancel then gives back the 1 it
+    saw before ITS first mock: each builder restores "the value it had before its first mock in that builder". -/
+example :
+    let ops : List Op := [.look 0 false 0, .set 0 (some ⟨exInt, 1⟩), .look 1 false 0, .set 1 (some ⟨exInt, 2⟩)]
+    Holds (run false (init exMem) ops) 0 0 (some ⟨exInt, 7⟩) ∧ Holds (run false (init exMem) ops) 1 0 (some ⟨exInt, 1⟩) ∧
+    ((step false (run false (init exMem) ops) (.cancel 0)).1.mem 0).cur = some ⟨exInt, 7⟩ ∧
+    ((step false (run false (init exMem) (ops ++ [.cancel 0])) (.cancel 1)).1.mem 0).cur = some ⟨exInt, 1⟩ := by
+  simp [Holds, run, step, look, setOp, doSet, cancel, init, upd, exMem, rset, valueOf, exInt]
 
 end C08
